@@ -15,6 +15,7 @@ fn main() {
     util::silence_panics();
     match args[1].as_str() {
         "deque" => deque::drive_deque(&args[2], &args[3]),
+        "sorted" => deque::drive_sorted(&args[2], &args[3]),
         e => {
             eprintln!("unknown engine {e}");
             std::process::exit(2);
